@@ -35,6 +35,7 @@ package main
 
 import (
 	"fmt"
+	"math/rand"
 	"net/netip"
 	"runtime"
 	"sort"
@@ -260,6 +261,10 @@ type tcase struct {
 	events  []string // harness-side event log (joins, leaves, barriers) for the witness
 	aborted string   // inconclusive reason
 	failed  bool
+	// rr is re-seeded from c.R before every op: the calculation graph emits the messages of one flush
+	// in map order, so the number of per-message draws varies between runs of the same seed; deriving a
+	// fresh generator per op keeps that variation from shifting every later decision.
+	rr *rand.Rand
 }
 
 var workloads = []string{"ns1/w1", "ns1/w2", "ns1/w3", "ns1/ghost"}
@@ -310,7 +315,7 @@ func (t *tcase) markDead(s *stream, why string) {
 func (t *tcase) join(w string, lazy bool) {
 	t.nextUID++
 	buf := 0
-	if t.c.R.Intn(2) == 0 {
+	if t.rr.Intn(2) == 0 {
 		buf = policysync.OutputQueueLen
 	}
 	s := &stream{workload: w, uid: t.nextUID, ch: make(chan *proto.ToDataplane, buf), shadow: shadowdp.New(), joinedAtOp: t.opIdx}
@@ -348,8 +353,19 @@ func (t *tcase) leave(w string, uid uint64) {
 }
 
 func (t *tcase) randomJoinLeave() {
-	r := t.c.R
+	r := t.rr
 	w := workloads[r.Intn(len(workloads))]
+	if r.Intn(10) < 6 { // prefer a workload whose endpoint exists right now
+		var have []string
+		for _, x := range workloads[:3] {
+			if _, ok := t.main.State.WEPs[shadowdp.WEPKey(&proto.WorkloadEndpointID{OrchestratorId: "k8s", WorkloadId: x, EndpointId: "eth0"})]; ok {
+				have = append(have, x)
+			}
+		}
+		if len(have) > 0 {
+			w = have[r.Intn(len(have))]
+		}
+	}
 	switch q := r.Intn(10); {
 	case q < 6:
 		t.join(w, r.Intn(10) < 3)
@@ -366,7 +382,7 @@ func (t *tcase) randomJoinLeave() {
 }
 
 func (t *tcase) injectSANS() {
-	r := t.c.R
+	r := t.rr
 	name := fmt.Sprintf("x%d", r.Intn(3))
 	if r.Intn(2) == 0 {
 		k := "ns1/" + name
@@ -600,8 +616,11 @@ func (t *tcase) judge(n int) {
 			func() [2][]string { a, b := diffKeys("policy", got.Policies, ws.Policies); return [2][]string{a, b} }(),
 			func() [2][]string { a, b := diffKeys("profile", got.Profiles, ws.Profiles); return [2][]string{a, b} }(),
 			func() [2][]string { a, b := diffKeys("ipset", got.IPSets, ws.IPSets); return [2][]string{a, b} }(),
-			func() [2][]string { a, b := diffKeys("serviceaccount", got.ServiceAccounts, t.sas); return [2][]string{a, b} }(),
-			func() [2][]string { a, b := diffKeys("namespace", got.Namespaces, t.nss); return [2][]string{a, b} }(),
+			func() [2][]string {
+				a, b := diffKeys("serviceaccount", got.ServiceAccounts, t.main.State.ServiceAccounts)
+				return [2][]string{a, b}
+			}(),
+			func() [2][]string { a, b := diffKeys("namespace", got.Namespaces, t.main.State.Namespaces); return [2][]string{a, b} }(),
 		} {
 			for _, m := range pair[0] {
 				problems = append(problems, "missing "+m)
@@ -651,12 +670,12 @@ func (t *tcase) judge(n int) {
 					}
 				}
 			}
-			for k, wv := range t.sas {
+			for k, wv := range t.main.State.ServiceAccounts {
 				if !googleproto.Equal(got.ServiceAccounts[k], wv) {
 					problems = append(problems, "serviceaccount "+k+" is not the latest version")
 				}
 			}
-			for k, wv := range t.nss {
+			for k, wv := range t.main.State.Namespaces {
 				if !googleproto.Equal(got.Namespaces[k], wv) {
 					problems = append(problems, "namespace "+k+" is not the latest version")
 				}
@@ -687,7 +706,8 @@ func (t *tcase) judge(n int) {
 
 func run(c *harness.Case) {
 	size := calcgen.Size{Routes: false, Extra: c.Thorough() && c.Index%2 == 0}
-	sc := calcgen.NewScenario(c.R, calcgen.ScenarioOptions{Size: size, MinSteps: 25, MaxSteps: c.Pick(90, 160)})
+	sc := calcgen.NewScenario(c.R, calcgen.ScenarioOptions{Size: size, MinSteps: 40, MaxSteps: c.Pick(120, 200),
+		History: calcgen.HistoryOptions{Focus: []string{calcgen.ClassWEP, calcgen.ClassPolicy, calcgen.ClassProfileRules, calcgen.ClassNetSet}}})
 	if err := sc.U.SelfCheck(); err != nil {
 		c.Inconclusive("generator-tag-mismatch")
 		return
@@ -705,10 +725,10 @@ func run(c *harness.Case) {
 		if t.aborted != "" || t.failed {
 			return
 		}
-		if c.R.Intn(100) < pJoinMid {
+		if t.rr.Intn(100) < pJoinMid {
 			t.randomJoinLeave()
 		}
-		if c.R.Intn(100) < pSAMid {
+		if t.rr.Intn(100) < pSAMid {
 			t.injectSANS()
 		}
 		t.forward(msg)
@@ -716,13 +736,14 @@ func run(c *harness.Case) {
 	hooks := calcgen.Hooks{
 		BeforeOp: func(i int, op calcgen.Op) {
 			t.opIdx = i
+			t.rr = rand.New(rand.NewSource(c.R.Int63()))
 			if op.Kind == calcgen.OpInSync {
 				t.main.NoteInSyncDelivered()
 			}
 			if t.aborted != "" || t.failed {
 				return
 			}
-			if c.R.Intn(100) < 12 {
+			if t.rr.Intn(100) < 12 {
 				t.randomJoinLeave()
 			}
 		},
@@ -732,20 +753,22 @@ func run(c *harness.Case) {
 			}
 			if op.Kind == calcgen.OpFlush {
 				t.main.EndFlush()
-				if c.R.Intn(100) < pBarrierOp {
+				if t.rr.Intn(100) < pBarrierOp {
 					t.doBarrier()
 				}
 			}
 		},
 	}
 	// make sure every real workload is joined at least once early or late
-	t.join(workloads[c.R.Intn(3)], false)
+	t.rr = rand.New(rand.NewSource(c.R.Int63()))
+	t.join(workloads[t.rr.Intn(3)], false)
 	calcgen.RunSync(sc.U, sc.Graph, sc.H.Ops, out, hooks)
 	if t.aborted == "" && !t.failed {
 		// late joins against the final state, then the closing barrier
+		t.rr = rand.New(rand.NewSource(c.R.Int63()))
 		for _, w := range workloads[:3] {
-			if t.live[w] == nil && c.R.Intn(2) == 0 {
-				t.join(w, c.R.Intn(3) == 0)
+			if t.live[w] == nil && t.rr.Intn(2) == 0 {
+				t.join(w, t.rr.Intn(3) == 0)
 			}
 		}
 		t.doBarrier()
@@ -796,7 +819,7 @@ func main() {
 	harness.Main(harness.Check{
 		ID:    "C31",
 		Level: "exploration",
-		Rule: "each case is a calcgen scenario (universe of policies/profiles/tiers/endpoints/network sets, random-walk history of 25-90 (thorough 160) steps with coalescing, duplicates, reverts and random flush strategy) run through the real calculation graph; " +
+		Rule: "each case is a calcgen scenario (universe of policies/profiles/tiers/endpoints/network sets, random-walk history of 40-120 (thorough 200) steps biased towards endpoints, policies, profiles and network sets, with coalescing, duplicates, reverts and random flush strategy) run through the real calculation graph; " +
 			"its output plus injected service-account/namespace events feeds the real Processor; joins/leaves (3 real local workloads + 1 that never exists; re-joins, stale leaves, joins before the endpoint exists, buffered and unbuffered client channels, eagerly or lazily synchronised) " +
 			"are interleaved before ops and between messages with per-case probabilities; barriers after 10-35% of the flushes and at the end; non-trivial = at least 2 streams and more than 20 stream messages; distinct by final datastore state and join/leave schedule",
 		Assumptions: []string{
